@@ -81,11 +81,20 @@ func (r *RequireModule) loadNative(path string) (*js.Object, error) {
 	if ldr == nil {
 		ldr = builtin[path]
 		if ldr == nil && strings.HasPrefix(path, NodePrefix) {
-			ldr = builtin[path[len(NodePrefix):]]
+			name := path[len(NodePrefix):]
+			ldr = builtin[name]
 			if ldr == nil {
 				return nil, NoSuchBuiltInModuleError
 			}
 			withPrefix = true
+			// The core module may be loaded under its own name already (one registered as "node:x" only and
+			// required as "node:node:x"): it is that module, not a second one that replaces it in the cache.
+			if r.r.native[name] == nil && native[name] == nil {
+				if module = r.natives[name]; module != nil {
+					r.natives[path] = module
+					return module, nil
+				}
+			}
 		}
 		isBuiltIn = true
 	}
